@@ -54,6 +54,13 @@ def with_motif(draw, W):
         stage = max(stage, comps[p]["stage"])
         extra = [q for q in range(len(comps)) if q != p and comps[q]["stage"] <= stage and draw(st.integers(0, 3)) == 0][:1]
         comps.append(_blank(free[0], stage, refs=sorted([p] + extra), aggregate=True))
+        if draw(st.booleans()):
+            # exactly one replica of the aggregated producer exits with a shutdownOn reason, its siblings succeed: the
+            # aggregator must still run (only ALL replicated inputs shut down stop it), whichever replica is seen first
+            reason = draw(st.sampled_from(["KnownIssue", "SystemIssue", "UnknownIssue"]))
+            comps[p]["shutdownOn"] = sorted(set(comps[p]["shutdownOn"]) | {reason})
+            comps[p]["restartHookOn"] = []
+            W["hint"] = {"component": p, "reason": reason, "replica": draw(st.integers(0, W["n"] - 1))}
     elif kind == "agg-plain-shutdown":
         # an aggregator with two (or three) non-replicated inputs of which exactly one exits with a shutdownOn reason
         s = last
@@ -135,8 +142,10 @@ def runtime_cases(draw, max_components=5, max_stages=3, fail_rate=6):
         script[victim] = [draw(st.sampled_from(pool))]
     if hint is not None:
         for ref in sorted(nodes):
-            if nodes[ref]["idx"] == hint["component"]:
+            if nodes[ref]["idx"] == hint["component"] and hint.get("replica") in (None, nodes[ref]["replica"]):
                 script[ref] = [hint["reason"]]
+            elif nodes[ref]["idx"] == hint["component"] and hint.get("replica") is not None:
+                script.pop(ref, None)          # the sibling replicas succeed
     # a fifth of the cases: some nodes have a memoization hit (they become final without ever being launched)
     memo = []
     if draw(st.integers(0, 4)) == 0:
